@@ -170,6 +170,12 @@ CS(p) ==
               /\ wch' = IF R.bc THEN Bcast(wch) ELSE wch
               /\ pend' = [pend EXCEPT ![p] = [reset |-> R.reset, chg |-> R.ch]]
               /\ UNCHANGED <<kctx, sstate>>
+         [] o.op = "setsr" ->       \* SetStateRoutine(same function): re-installs the routine for the stored state
+              LET R == SetRoutineLocked(Bundle, sstate) IN
+              /\ SetBundle(R.B) /\ cur' = R.cur /\ kprev' = R.kprev
+              /\ wch' = wch
+              /\ pend' = [pend EXCEPT ![p] = [reset |-> R.reset, chg |-> R.ch]]
+              /\ UNCHANGED <<kctx, sstate>>
          [] o.op = "setstate" ->
               IF sstate = o.s
               THEN /\ pend' = [pend EXCEPT ![p] = [changed |-> FALSE, reset |-> FALSE, running |-> FALSE, chg |-> 0]]
@@ -204,7 +210,7 @@ CS(p) ==
 Ret(p) ==
     /\ pc[p] = "ret"
     /\ LET o == Op(p)
-           hasCh == o.op \in {"setroutine", "setstate"} /\ pend[p].chg # 0
+           hasCh == o.op \in {"setroutine", "setstate", "setsr"} /\ pend[p].chg # 0
            h == IF hasCh THEN nch + 1 ELSE 0
            e == [id |-> CallId(p, ip[p]), ch |-> h,
                  changed |-> IF "changed" \in DOMAIN pend[p] THEN pend[p].changed ELSE FALSE,
